@@ -32,7 +32,10 @@ def replay(data):
     if not case:
         print("replay: no concrete history recorded for", data.get("obligation"), data.get("writes") or data.get("solver"))
         return 1
-    if case.get("kind") == "key-congruence":
+    if case.get("kind") == "value-key-congruence":
+        f, _ = c12_concrete.search_value_keys()
+        r = next((c["failure"] for c in f if c["label"] == case["label"] and c["op"] == case["op"] and c["second"] == case["second"]), None)
+    elif case.get("kind") == "key-congruence":
         f, _ = c12_concrete.search_keys()
         r = next((c["failure"] for c in f if c["second"] == case["second"] and c["input"] == case["input"] and c["first"] == case["first"]), None)
     else:
@@ -60,6 +63,12 @@ def main(tier, seed):
                         "rule": "both member orders of a union, Optional[X] vs Union[None, X], both member orders of a Literal; each input with either key built first"})
     for f in other[:3]:
         chk.violation("key-congruence :: " + f["label"], {"found": True, "kind": "c12-keys", "case": f}, True)
+    vf, vn = c12_concrete.search_value_keys()
+    chk.bounded.append({"name": "K (values): congruence over equal-but-distinct input values (real code, cache cleared between runs)",
+                        "evaluations": vn, "distinct_nontrivial": len(c12_concrete.value_key_pairs()), "failures": len(vf),
+                        "rule": "timedelta vs pendulum durations in months / years, Decimal scales, 1 / True / 1.0, Fraction vs int, one instant in two zones; marshal and encode, either value first"})
+    for f in vf[:3]:
+        chk.violation("value-key-congruence :: " + f["label"], {"found": True, "kind": "c12-values", "case": f}, True)
     n_seq = 200 if tier == "thorough" else 25
     hf, hn, hd = c12_concrete.history_search(seed=seed, stop_at=3, n_seq=n_seq)
     chk.bounded.append({"name": "bounded stand-in: random operation histories vs the same operation with every cache cleared",
